@@ -504,8 +504,8 @@ MUTANTS += [
          new="		for left_idx in range(left_nrows if not check_left_unique else left_nrows - 1):\n			key = tuple(col[left_idx] for col in left_keys)\n			\n			# Validate hashability for object dtype columns\n			if validate_hashable:\n				self._validate_key_tuple_hashable(key, left_keys, left_idx)",
          rules=["c.no-influence", "b.left-check"]),
     dict(id="expect-changes-result", module="table",
-         old="		# Handle completely empty result\n		if left_nrows == 0:\n			return Table(())",
-         new="		# Handle completely empty result\n		if left_nrows == 0 or (expect == 'one_to_one' and not right_index):\n			return Table(())",
+         old="		# Wrap result_data into Vectors, preserving column names\n",
+         new="		if expect == 'one_to_one' and not right_index:\n			return Table(())\n		# Wrap result_data into Vectors, preserving column names\n",
          rules=["c.no-influence"]),
     dict(id="validation-after-key-validation", module="table",
          edits=[("table", """		# Validate expectation value early
